@@ -10,6 +10,7 @@ import (
 	"gitlab.com/gomidi/midi/v2"
 	cc "gitlab.com/gomidi/midi/v2/internal/verifh/conccases"
 	cp "gitlab.com/gomidi/midi/v2/internal/verifh/concpairs"
+	"gitlab.com/gomidi/midi/v2/internal/verifh/disturb"
 	"gitlab.com/gomidi/midi/v2/internal/verifh/engine"
 	"gitlab.com/gomidi/midi/v2/internal/verifh/refsmf"
 	"gitlab.com/gomidi/midi/v2/sequencer"
@@ -723,6 +724,7 @@ func longSongs() {
 
 func main() {
 	ctx = engine.Start("C20", "exploration")
+	disturb.Install(ctx)
 	if ctx.ReplayPath != "" {
 		if cp.Replay(ctx, ctx.LoadReplay(), "export", cc.Export()) {
 			ctx.Finish("replay")
